@@ -75,7 +75,7 @@ def collect {α : Type} : List (Except IMsg α) → Except IMsg (List α)
 
 /-- `is_deprecated.unwrap_or(false).then(|| reason.unwrap_or_default())` -/
 def deprecation (isDep : Option Bool) (reason : Option String) : Option String :=
-  if isDep.getD false then some (reason.getD "No longer supported") else none
+  if isDep.getD false then some (reason.getD "") else none
 
 /-! ### `IntrospectionEnumValue` (no nested types) -/
 
